@@ -1272,6 +1272,10 @@ class H2Stream:
             )
         ]
 
+        # An empty header list encodes to nothing, but still needs a frame.
+        if not header_blocks:
+            header_blocks = [b'']
+
         frames = []
         first_frame.data = header_blocks[0]
         frames.append(first_frame)
